@@ -258,7 +258,17 @@ func init() {
 	}
 	externals["time.NewTimer"] = newTimer
 	externals["time.NewTicker"] = newTimer
-	externals["time.After"] = func(fr *frame, args []value) value { return make(chan value, 1) }
+	// time.After: a channel that delivers once every other case of a blocking
+	// select has turned out not to be ready (time passes only when the thread
+	// of execution would otherwise wait)
+	externals["time.After"] = func(fr *frame, args []value) value {
+		c := make(chan value, 1)
+		if fr.i.timers == nil {
+			fr.i.timers = map[chan value]bool{}
+		}
+		fr.i.timers[c] = true
+		return c
+	}
 	externals["time.Tick"] = func(fr *frame, args []value) value { return make(chan value, 1) }
 	externals["time.runtimeNano"] = func(fr *frame, args []value) value { return fr.i.tick() }
 	externals["time.now"] = func(fr *frame, args []value) value {
